@@ -4,7 +4,7 @@ set -e
 name="$1"
 mkdir -p /work/wt
 git -C /verif worktree add -q /work/wt/$name -b wt-$name
-cp -r /verif/lean/.lake /work/wt/$name/lean/.lake
+cp -a /verif/lean/.lake /work/wt/$name/lean/.lake
 mkdir -p /work/wt/$name/harness
-cp -r /verif/harness/target /work/wt/$name/harness/target
+cp -a /verif/harness/target /work/wt/$name/harness/target
 echo /work/wt/$name
